@@ -1,43 +1,58 @@
 #!/usr/bin/env python3
 """Mutation self-test: apply each hand-written property-breaking edit from mutants.json to a scratch copy of
-/repo/poly-commit/src (never to /repo), run the named check against the copy (VERIF_REPO) and report
-whether it was rejected.   usage: tools/mutants.py [id-substring ...]"""
+/repo/poly-commit/src (never to /repo), run the named check against the copy (VERIF_REPO, with its own build and
+evidence directories) and report whether it was rejected.   usage: tools/mutants.py [-jN] [id-substring ...]"""
 import json, os, shutil, subprocess, sys, tempfile
+import concurrent.futures as cf
 ROOT = os.path.dirname(os.path.dirname(os.path.abspath(__file__)))
 REPO = os.environ.get('VERIF_REPO', '/repo')
 muts = json.load(open(os.path.join(ROOT, 'mutants.json')))
-sel = sys.argv[1:]
-res = []
-for m in muts:
-    if sel and not any((s[1:] == m['id']) if s.startswith('=') else (s in m['id']) for s in sel):
-        continue
-    d = tempfile.mkdtemp(prefix='vxmut_')
+if isinstance(muts, dict):
+    muts = muts['mutants']
+args = sys.argv[1:]
+jobs = 4
+for a in list(args):
+    if a.startswith('-j'):
+        jobs = int(a[2:] or 4); args.remove(a)
+sel = args
+
+
+def one(m):
+    d = tempfile.mkdtemp(prefix='vxmut_', dir='/var/tmp')
     try:
         os.makedirs(os.path.join(d, 'poly-commit'))
         shutil.copytree(os.path.join(REPO, 'poly-commit', 'src'), os.path.join(d, 'poly-commit', 'src'))
         p = os.path.join(d, m['file'])
         s = open(p).read()
         if s.count(m['old']) != m.get('count', 1):
-            print('%-40s SKIP (pattern occurs %d times)' % (m['id'], s.count(m['old'])))
-            res.append((m['id'], 'skip'))
-            continue
+            return m['id'], 'skip', '%-40s SKIP (pattern occurs %d times)' % (m['id'], s.count(m['old']))
         s = s.replace(m['old'], m['new'])
         for a, b in m.get('also', []):
             s = s.replace(a, b)
         open(p, 'w').write(s)
-        env = dict(os.environ, VERIF_REPO=d, VERIF_EVIDENCE_DIR=os.path.join(d, 'evidence'))
+        env = dict(os.environ, VERIF_REPO=d, VERIF_EVIDENCE_DIR=os.path.join(d, 'evidence'), VERIF_BUILD_DIR=os.path.join(d, 'build'), VERIF_JOBS='4')
         out = subprocess.run([os.path.join(ROOT, 'check'), m['prop']], capture_output=True, text=True, env=env)
         verdict = {0: 'SURVIVED', 1: 'killed', 2: 'undecided'}.get(out.returncode, 'rc=%d' % out.returncode)
         if m.get('expect') == 'pass':   # a benign edit (rename / reordering): any alarm is a false alarm
             verdict = {0: 'killed', 1: 'FALSE-ALARM', 2: 'undecided(benign)'}.get(out.returncode, verdict)
-            print('%-40s %-9s (benign edit: expected to verify)' % (m['id'], 'ok' if out.returncode == 0 else verdict))
-            res.append((m['id'], verdict))
-            continue
+            return m['id'], verdict, '%-40s %-9s (benign edit: expected to verify)' % (m['id'], 'ok' if out.returncode == 0 else verdict)
         first = [l for l in out.stdout.split('\n') if l.startswith(('VIOLATION', 'UNDECIDED'))][:1]
-        print('%-40s %-9s %s' % (m['id'], verdict, first[0][:150] if first else ''))
-        res.append((m['id'], verdict))
+        line = first[0][:150] if first else ''
+        line = line.replace(os.path.join(d, 'build'), '<scratch>')
+        return m['id'], verdict, '%-40s %-9s %s' % (m['id'], verdict, line)
     finally:
         shutil.rmtree(d, ignore_errors=True)
+
+
+todo = [m for m in muts if not sel or any((s[1:] == m['id']) if s.startswith('=') else (s in m['id']) for s in sel)]
+res = []
+with cf.ThreadPoolExecutor(max_workers=jobs) as ex:
+    for mid, verdict, line in ex.map(one, todo):
+        print(line, flush=True)
+        res.append((mid, verdict))
 k = sum(1 for _, v in res if v == 'killed')
 print('killed %d / %d' % (k, len(res)))
+bad = [i for i, v in res if v != 'killed']
+if bad:
+    print('not killed: ' + ', '.join(bad))
 sys.exit(0 if k == len(res) else 1)
